@@ -1,0 +1,35 @@
+//go:build verif
+
+package actions
+
+import (
+	"net/http"
+
+	"github.com/google/uuid"
+)
+
+// VerifPushConn gives an external verification harness direct access to the
+// HTTP push connection (the StreamConnection the push streamer plugs into
+// MessageStreamer), so that its Send / Receive logic can be driven one call at
+// a time and compared with a model. Add-only; compiled only with -tags verif.
+type VerifPushConn struct{ c *httpPushStreamConn }
+
+func VerifNewPushConn(subscriptionName string, subscriptionID uuid.UUID, endpoint string, client *http.Client) *VerifPushConn {
+	return &VerifPushConn{newHttpPushConn(subscriptionName, subscriptionID, endpoint, client)}
+}
+
+// Conn is the connection itself.
+func (v *VerifPushConn) Conn() StreamConnection { return v.c }
+
+// Window reports the adaptive flow control window currently in force.
+func (v *VerifPushConn) Window() FlowControl {
+	v.c.mu.Lock()
+	defer v.c.mu.Unlock()
+	return FlowControl{MaxMessages: v.c.maxMessages, MaxBytes: v.c.maxBytes}
+}
+
+// Queued reports how many finished pushes wait in the fast-ack, slow-ack and
+// nack queues for the next Receive.
+func (v *VerifPushConn) Queued() (fast, slow, nack int) {
+	return len(v.c.fastAckQueue), len(v.c.slowAckQueue), len(v.c.nackQueue)
+}
